@@ -46,7 +46,7 @@ fn mutate(ctx: &mut Ctx, doc: &str) -> String {
     let n = 1 + ctx.rng.below(4);
     for _ in 0..n {
         let at = char_floor(&s, ctx.rng.below(s.len() as u64 + 1) as usize);
-        match ctx.rng.below(16) {
+        match ctx.rng.below(19) {
             0 | 1 | 2 => { // insert a multi-byte character
                 s.insert(at, *ctx.rng.pick(MB)); ctx.count("mut:insert-mb");
             }
@@ -62,7 +62,13 @@ fn mutate(ctx: &mut Ctx, doc: &str) -> String {
                 s.truncate(at); ctx.count("mut:truncate");
             }
             6 => { s.insert(at, '\n'); ctx.count("mut:newline"); }
-            7 => { s = s.replace('\n', "\r\n"); ctx.count("mut:crlf"); }
+            7 => {
+                if ctx.rng.chance(1, 2) { s = s.replace('\n', "\r\n"); ctx.count("mut:crlf"); }
+                else if ctx.rng.chance(1, 2) { s.insert(at, '\r'); ctx.count("mut:lone-cr"); }
+                else { // old Mac line ends: every second line break becomes a lone CR
+                    let mut k = 0; s = s.chars().map(|c| if c == '\n' { k += 1; if k % 2 == 0 { '\r' } else { '\n' } } else { c }).collect(); ctx.count("mut:lone-cr");
+                }
+            }
             8 => { // a comment line with multi-byte text
                 let c: String = (0..3 + ctx.rng.below(4)).map(|_| *ctx.rng.pick(MB)).collect();
                 let line_start = s[..at].rfind('\n').map(|i| i + 1).unwrap_or(0);
@@ -90,6 +96,22 @@ fn mutate(ctx: &mut Ctx, doc: &str) -> String {
                 let c: String = (0..2 + ctx.rng.below(3)).map(|_| *ctx.rng.pick(&MB[5..13])).collect();
                 let line_end = s[at..].find('\n').map(|i| at + i).unwrap_or(s.len());
                 s.insert_str(line_end, &format!(" \"{}\" {}", c, ctx.rng.pick(&[")", "]", "}", "@@", "= =", "\u{e9}"]))); ctx.count("mut:error-after-mb");
+            }
+            15 | 16 => { // the document ends in the middle of an expression, on a line with multi-byte text:
+                // the parse error sits at the very end of that line and its padded end column must be clamped
+                let c: String = (0..1 + ctx.rng.below(4)).map(|_| *ctx.rng.pick(&MB[..13])).collect();
+                let line_end = s[at..].find('\n').map(|i| at + i).unwrap_or(s.len());
+                s.truncate(line_end);
+                let line_start = s.rfind('\n').map(|i| i + 1).unwrap_or(0);
+                if ctx.rng.chance(1, 2) { s.truncate(line_start); s.push_str("let s ="); }
+                s.push_str(&format!(" \"{}\" {}", c, ctx.rng.pick(&["+", "and", "(", "==", ",", "*", "or", ".where(", "["])));
+                ctx.count("mut:eof-after-mb");
+            }
+            17 => { // nesting deeper than the parser allows (InvalidToken, end = start + 10) on a multi-byte line
+                let c: String = (0..1 + ctx.rng.below(3)).map(|_| *ctx.rng.pick(&MB[..6])).collect();
+                if !s.is_empty() && !s.ends_with('\n') { s.push('\n'); }
+                s.push_str(&format!("let {} = {}1", c, "[".repeat(17 + ctx.rng.below(4) as usize)));
+                ctx.count("mut:deep-nesting-mb");
             }
             _ => { // upper-case multi-byte type name
                 s.insert_str(at, &format!(" {}{} ", ctx.rng.pick(&['\u{c9}', '\u{3a9}', 'Z']), ctx.rng.pick(MB))); ctx.count("mut:mb-type");
@@ -191,8 +213,14 @@ fn one_doc(ctx: &mut Ctx, doc: &str, uri: &Url, dense: bool) {
             let h = match catch(move || get_hover(&d, pos)) {
                 Err(_) => { ctx.count("hover:panic"); "panic" } Ok(Some(_)) => { ctx.count("hover:some"); "some" } Ok(None) => "none" };
             let d = doc.to_string();
-            let c = match catch(move || get_completions(&d, pos)) {
-                Err(_) => { ctx.count("compl:panic"); "panic".to_string() } Ok(v) => format!("{}", v.len()) };
+            let (c, k) = match catch(move || get_completions(&d, pos)) {
+                Err(_) => { ctx.count("compl:panic"); ("panic".to_string(), "panic") }
+                Ok(v) => {
+                    // connector-parameter context, read off the result: parameter names only (kind PROPERTY), or nothing
+                    let params = v.iter().all(|i| i.kind == Some(tower_lsp::lsp_types::CompletionItemKind::PROPERTY));
+                    if params { ctx.count(if v.is_empty() { "compl:connector-params-unknown" } else { "compl:connector-params" }); }
+                    (format!("{}", v.len()), if params { "p" } else { "o" })
+                } };
             let (dd, rr) = if dense || ci % 3 == 0 || ci + 3 > blen {
                 let d = doc.to_string(); let u = uri.clone();
                 let dd = match catch(move || get_definition(&d, pos, &u)) {
@@ -206,7 +234,7 @@ fn one_doc(ctx: &mut Ctx, doc: &str, uri: &Url, dense: bool) {
                     Ok(Some(locs)) => { ctx.count("refs:some"); if locs.is_empty() { "-".to_string() } else { locs.iter().map(|l| fmt_range(&l.range)).collect::<Vec<_>>().join(",") } } };
                 (dd, rr)
             } else { ("skip".to_string(), "skip".to_string()) };
-            ctx.case(&format!("at {} {}", li, ci), &format!("h={} c={} d={} r={}", h, c, dd, rr));
+            ctx.case(&format!("at {} {}", li, ci), &format!("h={} c={} k={} d={} r={}", h, c, k, dd, rr));
             ci += 1;
         }
     }
@@ -222,7 +250,12 @@ pub fn run(ctx: &mut Ctx, _name: &str) {
             &format!("w={} s={} u={} a={} n={}", (c.is_alphanumeric() || c == '_') as u8, c.is_whitespace() as u8, c.is_uppercase() as u8, c.is_alphabetic() as u8, c.len_utf8()));
     }
     // fixed witnesses first
-    for w in ["# \u{e9}\u{e9}\u{e9}\u{2026}", "a\u{e9}", "x = \u{65e5}\u{672c}", "stream x = y.where(", "s.from( a\u{e9}", "\u{e9}@", "", "let x = \"\u{65e5}\u{65e5}\u{65e5}\" )", "a\r\n\u{1f600}b\r\n"] {
+    for w in ["# \u{e9}\u{e9}\u{e9}\u{2026}", "a\u{e9}", "x = \u{65e5}\u{672c}", "stream x = y.where(", "s.from( a\u{e9}", "\u{e9}@", "", "let x = \"\u{65e5}\u{65e5}\u{65e5}\" )", "a\r\n\u{1f600}b\r\n", "event A:\r    x: int\rstream S = A.where(\u{e9} > 1)\r", "let a = 1\rlet \u{65e5} = (\r\n",
+        // connector-parameter context (decided by value through the completions)
+        "connector K = kafka(brokers: \"k\")\nstream S = A.from( K , topic: \"t\", ", "stream S = A.to(\u{e9}K,", "stream S = A.from(K", "s.from(1, ", "s.from(a).to( b\u{a0}, ",
+        // parse errors at the very end of a line with multi-byte characters (padded end column must be clamped in characters)
+        "let s = \"\u{b0}C \u{2192} \u{e9}lev\u{e9}\" +", "stream Hot = Reading.where(unit == \"\u{b0}C\" and",
+        "let \u{e9} = [[[[[[[[[[[[[[[[[1", "event A:\n    x: int\nlet s = \"\u{65e5}\u{672c}\" ("] {
         one_doc(ctx, w, &uri, true);
     }
     let ndocs = if ctx.thorough { 600 } else { 40 };
